@@ -190,7 +190,7 @@ class Builder:
                 body = body[:le + 1] + text + '\n' + body[le + 1:]
             self.log.add('R2b', where, anchor, 'ghost block ' + pos)
         return body
-    def slice_fn(self, fname, sig, body, where, requires=(), clauses=(), props=(), extra_rules=(), prologue='', epilogue='', decreases=None, loops=None, blocks=None, pre=None, reveal=None):
+    def slice_fn(self, fname, sig, body, where, requires=(), clauses=(), props=(), extra_rules=(), prologue='', epilogue='', decreases=None, loops=None, blocks=None, pre=None, reveal=None, epilogue_before_tail=None):
         """R7: a closure body / statement range lifted into a generated fn `sig` (written by the unit), body byte-for-byte + dialect rules."""
         from . import dialect as D
         body = D.strip_attrs_and_docs(body, self.log, where)
@@ -201,6 +201,10 @@ class Builder:
             ghost = self._last_ghost
             prologue = (prologue + '\n' if prologue else '') + ghost.strip('\n')
         self.log.add('R7', where, 'slice', sig)
+        if epilogue_before_tail:
+            st = L.split_stmts(body)
+            a = st[-1][0]; ls = body.rfind('\n', 0, a) + 1
+            body = body[:ls] + epilogue_before_tail + '\n' + body[ls:]
         if loops: body = self._annotate_loops(body, loops, where)
         if blocks: body = self._insert_blocks(body, blocks, where)
         first = self.lineno()
